@@ -312,3 +312,102 @@ Section Quit.
     - apply (IH ts' (S i) m b Hrest (sep_tail _ _ _ Hsep) Hnin).
   Qed.
 End Quit.
+
+(* ------------------------------------------------------------------ ec_quit(loc, cmd, arg, txt) *)
+Definition is_wx (cmd : bytes) : bool := (nthb cmd 0 =? 119)%N || (nthb cmd 0 =? 120)%N.      (* wq, x, xa: ec_write first *)
+(* the write part: for w... / x... the oracle for ec_write("", cmd, arg, NULL) answers r and leaves mw; else nothing happens *)
+Definition write_part (ext : nat -> list val -> mem -> res (val * mem)) (cb : nat) (cmd : bytes) (arg : val) (m : mem) (r : Z) (mw : mem) : Prop :=
+  if is_wx cmd then ext X_ec_write [VPtr G_lit__0 0; VPtr cb 0; arg; VInt 0] m = Ok (VInt r, mw) else (r = 0 /\ mw = m).
+Definition quit_rest : stmt := match fn_body cf_ec_quit with SSeq _ r => r | _ => SSkip end.
+
+Lemma sx_eq119 : forall c, (c < 256)%N -> (wrap I32 (wrap I8 (Z.of_N c)) =? 119) = (c =? 119)%N.
+Proof. byte_fact. Qed.
+Lemma sx_eq120 : forall c, (c < 256)%N -> (wrap I32 (wrap I8 (Z.of_N c)) =? 120) = (c =? 120)%N.
+Proof. byte_fact. Qed.
+
+(* the head of ec_quit: after it, either the function has returned 1 (the write part reported failure) or the rest runs on mw *)
+Lemma quit_head ext m cb cmd loc arg txt r mw d fuel k : str_at m cb cmd -> nonul cmd -> ptr_val arg ->
+  write_part ext cb cmd arg m r mw ->
+  (callx ext cprog fuel (S (S (S (S d)))) F_ec_quit [loc; VPtr cb 0; arg; txt] m = k <->
+   (if r =? 0 then
+      match exec (callx ext cprog fuel (S (S (S d)))) fuel quit_rest (mkst [loc; VPtr cb 0; arg; txt; VUndef; VUndef; VUndef] mw) with
+      | OReturn v st => Ok (v, memm st) | ONormal st => Ok (VUndef, memm st) | OErr x => Err x | _ => Err EShape end
+    else Ok (VInt 1, mw)) = k).
+Proof.
+  intros Hcmd Ncmd Harg Hw. enterx F_ec_quit cf_ec_quit. rewrite exec_seq, exec_if. xcbn.
+  replace (0 + 1 * 0) with (Z.of_nat 0) by reflexivity. rewrite (load_str m cb cmd _ 0 Hcmd) by (try reflexivity; lia). xcbn.
+  assert (Hc : (nthb cmd 0 < 256)%N) by (apply nthb_lt256, nonul_lt256; exact Ncmd).
+  rewrite (sx_eq119 _ Hc). unfold write_part, is_wx in Hw. unfold quit_rest. cbn [fn_body cf_ec_quit].
+  assert (Hwr : forall st0, st0 = mkst [loc; VPtr cb 0; arg; txt; VUndef; VUndef; VUndef] m ->
+    ext X_ec_write [VPtr G_lit__0 0; VPtr cb 0; arg; VInt 0] m = Ok (VInt r, mw) ->
+    exec (callx ext cprog fuel (S (S (S d)))) fuel
+      (SIf (ECall X_ec_write [EGlob G_lit__0; ELocal 1; ELocal 2; EConst 0]) (SReturn (Some (EConst 1))) SSkip) st0
+    = if r =? 0 then ONormal (mkst [loc; VPtr cb 0; arg; txt; VUndef; VUndef; VUndef] mw)
+      else OReturn (VInt 1) (mkst [loc; VPtr cb 0; arg; txt; VUndef; VUndef; VUndef] mw)).
+  { intros st0 -> He. rewrite exec_if. xcbn. destruct Harg as [E|[b [o E]]]; rewrite E in *; xcbn;
+      rewrite callx_S, x_ec_write_none, He; xcbn; destruct (r =? 0); xstep; reflexivity. }
+  destruct (N.eqb_spec (nthb cmd 0) 119) as [E1|E1]; cbn [orb b2z negb Z.eqb] in *; xcbn.
+  - rewrite (Hwr _ eq_refl Hw). destruct (r =? 0); [reflexivity|]. reflexivity.
+  - replace (0 + 1 * 0) with (Z.of_nat 0) by reflexivity. rewrite (load_str m cb cmd _ 0 Hcmd) by (try reflexivity; lia). xcbn.
+    rewrite (sx_eq120 _ Hc). destruct (N.eqb_spec (nthb cmd 0) 120) as [E2|E2]; cbn [orb b2z negb Z.eqb] in *; xcbn.
+    + rewrite (Hwr _ eq_refl Hw). destruct (r =? 0); [reflexivity|]. reflexivity.
+    + destruct Hw as [-> ->]. rewrite exec_skip. reflexivity.
+Qed.
+
+(* wq / x / xa whose write part reports failure: 1, xquit untouched (the memory is what ec_write left), the loop is not started *)
+Theorem tr_ec_quit_write_fails ext m cb cmd loc arg txt r mw d fuel : str_at m cb cmd -> nonul cmd -> ptr_val arg ->
+  is_wx cmd = true -> ext X_ec_write [VPtr G_lit__0 0; VPtr cb 0; arg; VInt 0] m = Ok (VInt r, mw) -> r <> 0 ->
+  callx ext cprog fuel (S (S (S (S d)))) F_ec_quit [loc; VPtr cb 0; arg; txt] m = Ok (VInt 1, mw).
+Proof.
+  intros Hcmd Ncmd Harg Hwx He Hr.
+  apply (quit_head ext m cb cmd loc arg txt r mw d fuel _ Hcmd Ncmd Harg); [unfold write_part; rewrite Hwx; exact He|].
+  destruct (Z.eqb_spec r 0); [contradiction|reflexivity].
+Qed.
+
+(* q / wq / x without `!`, for EVERY table and every heap behind it (mw: the memory when the loop starts): the 16 slots are visited in
+   order; every occupied slot's buffer is asked (its counter bumped) up to the first one reported modified -- cq --; if there is none,
+   xquit = 1 is stored and 0 returned; if slot j is the first, "buffer modified" goes to ex_show, bufs_switch(j) runs, 0 is returned
+   and xquit is NOT stored: the memory is exactly what bufs_switch left *)
+Theorem tr_ec_quit_scan ext m mw t hp cb cmd loc arg txt q0 d fuel : str_at m cb cmd -> nonul cmd -> ptr_val arg ->
+  write_part ext cb cmd arg m 0 mw ->
+  tab_at mw t -> tab_ok t -> heap_at mw t hp -> sep [G_bufs; G_xaw; G_xquit; cb] hp ->
+  cell_at mw G_xaw 0 -> cell_at mw G_xquit q0 -> str_at mw cb cmd ->
+  find_byte 97 cmd = None -> find_byte 33 cmd = None -> (16 < fuel)%nat ->
+  match cq hp 0 mw with
+  | (m1, None) => callx ext cprog fuel (S (S (S (S d)))) F_ec_quit [loc; VPtr cb 0; arg; txt] m = Ok (VInt 0, upd m1 G_xquit [VInt 1])
+  | (m1, Some j) => forall u1 m2 u2 m', ext X_ex_show [VPtr G_bm 0] m1 = Ok (u1, m2) ->
+      callx ext cprog fuel (S (S (S d))) F_bufs_switch [VInt (Z.of_nat j)] m2 = Ok (u2, m') ->
+      callx ext cprog fuel (S (S (S (S d)))) F_ec_quit [loc; VPtr cb 0; arg; txt] m = Ok (VInt 0, m')
+  end.
+Proof.
+  intros Hcmd Ncmd Harg Hw Hm Ht Hh Hsep Haw Hq Hcmdw Ha Hb Hf.
+  pose proof (quit_scan_ok ext t cb cmd loc arg txt d fuel Ht Ncmd Ha Hb hp t 0 mw fuel VUndef VUndef eq_refl Hh Hsep
+                ltac:(destruct Ht as [Hl _]; cbn; lia) ltac:(destruct Ht as [Hl _]; lia) Hm Haw Hcmdw) as Hloop.
+  pose proof (cq_other cb hp t 0 mw G_xquit Hh Hsep) as Hoth.
+  destruct (cq hp 0 mw) as [m1 [j|]].
+  - intros u1 m2 u2 m' Hshow Hsw. specialize (Hloop u1 m2 u2 m' Hshow Hsw).
+    apply (quit_head ext m cb cmd loc arg txt 0 mw d fuel _ Hcmd Ncmd Harg Hw). cbn [Z.eqb].
+    unfold quit_rest. cbn [fn_body cf_ec_quit]. rewrite exec_seq, exec_seq, exec_expr. xcbn.
+    unfold quit_loop in Hloop; cbn [fn_body cf_ec_quit] in Hloop. change (Z.of_nat 0) with 0 in Hloop. rewrite Hloop. reflexivity.
+  - apply (quit_head ext m cb cmd loc arg txt 0 mw d fuel _ Hcmd Ncmd Harg Hw). cbn [Z.eqb].
+    unfold quit_rest. cbn [fn_body cf_ec_quit]. rewrite exec_seq, exec_seq, exec_expr. xcbn.
+    unfold quit_loop in Hloop; cbn [fn_body cf_ec_quit] in Hloop. change (Z.of_nat 0) with 0 in Hloop. rewrite Hloop. xstep.
+    assert (Hq1 : cell_at m1 G_xquit q0).
+    { unfold cell_at. cbn [fst] in Hoth. rewrite Hoth; [exact Hq|]. destruct Hsep as (_ & Hr & _). intro Hin. apply (Hr _ Hin). cbn; tauto. }
+    change (wrap I32 1) with 1. rewrite (store_cell m1 G_xquit q0 1 Hq1). xstep. reflexivity.
+Qed.
+
+(* q! / wq! / x! (with `!`, without `a`): nothing is asked, xquit = 1 is stored whatever the buffers hold *)
+Theorem tr_ec_quit_force ext m mw t cb cmd loc arg txt q0 k d fuel : str_at m cb cmd -> nonul cmd -> ptr_val arg ->
+  write_part ext cb cmd arg m 0 mw ->
+  tab_at mw t -> tab_ok t -> lbs_ok t -> cell_at mw G_xquit q0 -> str_at mw cb cmd ->
+  find_byte 97 cmd = None -> find_byte 33 cmd = Some k -> (16 < fuel)%nat ->
+  callx ext cprog fuel (S (S (S (S d)))) F_ec_quit [loc; VPtr cb 0; arg; txt] m = Ok (VInt 0, upd mw G_xquit [VInt 1]).
+Proof.
+  intros Hcmd Ncmd Harg Hw Hm Ht Hlbs Hq Hcmdw Ha Hb Hf.
+  pose proof (quit_force_ok ext t cb cmd loc arg txt d fuel Ht Ncmd k Ha Hb Hlbs 16 0 mw fuel VUndef VUndef eq_refl Hf Hm Hcmdw) as Hloop.
+  apply (quit_head ext m cb cmd loc arg txt 0 mw d fuel _ Hcmd Ncmd Harg Hw). cbn [Z.eqb].
+  unfold quit_rest. cbn [fn_body cf_ec_quit]. rewrite exec_seq, exec_seq, exec_expr. xcbn.
+  unfold quit_loop in Hloop; cbn [fn_body cf_ec_quit] in Hloop. change (Z.of_nat 0) with 0 in Hloop. rewrite Hloop. xstep.
+  change (wrap I32 1) with 1. rewrite (store_cell mw G_xquit q0 1 Hq). xstep. reflexivity.
+Qed.
